@@ -1,7 +1,7 @@
 (* C09 — reported derivatives are the documented central differences of the loads.  Statements only. *)
 From Coq Require Import Reals Lra List Bool.
 From MuxV Require Import Base.Num Base.Vec3 Base.RInst Model.Helpers Model.AeroState Model.Analyses
-  Proofs.HelpersP Proofs.AnalysesP Proofs.AeroStateP.
+  Proofs.HelpersP Proofs.AnalysesP Proofs.AeroStateP Proofs.TrigP.
 Import ListNotations.
 Local Open Scope R_scope.
 
@@ -82,3 +82,17 @@ Print Assumptions C09_stability_table.
 Print Assumptions C09_damping_table.
 Print Assumptions C09_stability_axes_perturbation.
 Print Assumptions C09_control_table.
+
+(* ---- with the real trigonometric functions and NumPy's atan2 the encoding hypothesis is a theorem (Proofs/TrigP.v): the stability
+   table is the documented central difference for every state whose perturbed angles stay inside (-90, 90) degrees ---- *)
+Theorem C09_stability_table_real : forall W F s dth, qn2 (s_q s) = 1 ->
+  let '(a0, b0, V0) := enc asin Ratan2 r2d (quat_trans (s_q s) (vsub (s_v s) W)) in
+  okA_real (a0 + dth) b0 V0 -> okA_real (a0 - dth) b0 V0 -> okA_real a0 (b0 + dth) V0 -> okA_real a0 (b0 - dth) V0 ->
+  exists sa_p sa_m sb_p sb_m,
+    get_ae asin Ratan2 r2d W sa_p = (a0 + dth, b0, V0) /\ get_ae asin Ratan2 r2d W sa_m = (a0 - dth, b0, V0) /\
+    get_ae asin Ratan2 r2d W sb_p = (a0, b0 + dth, V0) /\ get_ae asin Ratan2 r2d W sb_m = (a0, b0 - dth, V0) /\
+    others_fixed s sa_p /\ others_fixed s sa_m /\ others_fixed s sb_p /\ others_fixed s sb_m /\
+    fst (stability cos sin tan atan asin Ratan2 (PI / 180) r2d W F s dth) =
+      (central (dth * (PI / 180)) (F sa_p) (F sa_m), central (dth * (PI / 180)) (F sb_p) (F sb_m)).
+Proof. intros W F. exact (C09_stability_table cos sin tan atan asin Ratan2 r2d W F okA_real HA_real). Qed.
+Print Assumptions C09_stability_table_real.
